@@ -6,6 +6,7 @@ CONSTANTS
   UtcRead = TRUE
   MaxRounds = 2
   HashSets <- HsTwo
+  TrustAdopted = FALSE
   ShortcutChecksHashes = FALSE
 INVARIANT IncEqualsFull
 INVARIANT TimestampNotLate
